@@ -293,6 +293,14 @@ var acceptedUnbound = map[string]string{
 	"io.Copy":                                                  "drain to EOF; the error is the termination signal itself",
 	modPath + ".gRPCBrokerClientImpl.StartStream": "goroutine body; a stream error closes the broker, which Recv observes",
 	"strconv.ParseBool":                           "unset or malformed flag means false",
+	"*.SetReadDeadline":                           "arming or clearing a deadline on a connection; it only fails on a closed connection, which the next read reports (R-DEADLINE checks that no deadline stays armed)",
+	"*.SetWriteDeadline":                          "as above",
+	"*.SetDeadline":                               "as above",
+	"bytes.Buffer.Write":                          "documented to always return a nil error",
+	"bytes.Buffer.WriteString":                    "documented to always return a nil error",
+	"bytes.Buffer.WriteByte":                      "documented to always return a nil error",
+	"strings.Builder.WriteString":                 "documented to always return a nil error",
+	"strings.Builder.Write":                       "documented to always return a nil error",
 }
 
 // acceptedL1 lists bound error values that are deliberately not read on some
